@@ -17,7 +17,9 @@ Rust source text on every run:
                   `impl<T: DataflowParent> ValidateOp for T`, or `impl_validate_op!(X)` = the default), which impl
                   supplies `validate_op_children`, the tags `validate_io_nodes` / CFG's children check reject in
                   inner positions;
-* hugr/validate.rs the tag comparisons the edge/port rules make (`!= OpTag::Cfg`, `!= OpTag::Case`).
+* hugr/validate.rs the tag / edge-kind comparisons the edge and port rules make (`!= OpTag::Cfg`, `!= OpTag::Case`,
+                  `!= EdgeKind::StateOrder`, `== EdgeKind::ControlFlow`) and the places where the flags are consulted;
+* types.rs        enum EdgeKind, `is_static` (its matches! alternatives), pinned text of `is_linear`.
 
 Everything is parsed from a token stream (comments and literals removed, brackets matched).  Fail closed: syntax outside
 the few shapes listed below, an unknown tag or field, a duplicate or missing arm / impl, an unknown macro at item level,
@@ -848,11 +850,19 @@ def scan_hugr_validate(core_src, tags):
     if len(m) != 1 or m[0] not in tags:
         fail("%s: dominator-edge parent test not found", path)
     dom_tag = m[0]
-    m = re.findall(r"Direction :: Incoming => \{ port_kind != EdgeKind :: StateOrder && port_kind != EdgeKind :: ControlFlow "
-                   r"&& op_type \. tag \( \) != OpTag :: (\w+) \}", txt)
-    if len(m) != 1 or m[0] not in tags:
+    m = re.findall(r"let must_be_connected = match dir \{ Direction :: Incoming => \{ port_kind != EdgeKind :: (\w+) && "
+                   r"port_kind != EdgeKind :: (\w+) && op_type \. tag \( \) != OpTag :: (\w+) \} "
+                   r"Direction :: Outgoing => outgoing_is_linear , \} ;", txt)
+    if len(m) != 1 or m[0][2] not in tags:
         fail("%s: must_be_connected test not found", path)
-    unconnected_ok_tag = m[0]
+    unconnected_ok_kinds = [m[0][0], m[0][1]]
+    unconnected_ok_tag = m[0][2]
+    m = re.findall(r"let outgoing_is_linear = port_kind \. is_linear \( \) \|\| port_kind == EdgeKind :: (\w+) ;", txt)
+    if len(m) != 1:
+        fail("%s: outgoing_is_linear test not found", path)
+    linear_extra = [m[0]]
+    if txt.count("let is_static = edge_kind . is_static ( ) ;") != 1:
+        fail("%s: validate_edge no longer uses EdgeKind::is_static", path)
     if txt.count("if ! is_static && self . hugr . get_optype ( ancestor ) . is_func_defn ( )") != 1:
         fail("%s: value-edge-into-FuncDefn test not found", path)
     uses = [("allowed_children", r"let allowed_children = parent_optype \. validity_flags \( \) \. allowed_children ; "
@@ -867,7 +877,52 @@ def scan_hugr_validate(core_src, tags):
     for name, rx in uses:
         if len(re.findall(rx, txt)) != 1:
             fail("%s: the use of flag %s in validate_node/validate_children changed", path, name)
-    return dom_tag, unconnected_ok_tag
+    return dom_tag, unconnected_ok_tag, unconnected_ok_kinds, linear_extra
+
+
+def scan_edge_kind(core_src):
+    """types.rs: enum EdgeKind and the two classifications the validator uses."""
+    path = os.path.join(core_src, "types.rs")
+    with open(path, "rb") as f:
+        tree = group(tokenize(f.read().decode("utf-8"), path), path)
+    enums = [i for i in range(len(tree) - 2) if tree[i] == "enum" and tree[i + 1] == "EdgeKind" and is_grp(tree[i + 2], "{")]
+    impls = [i for i in range(len(tree) - 2) if tree[i] == "impl" and tree[i + 1] == "EdgeKind" and is_grp(tree[i + 2], "{")]
+    if len(enums) != 1 or len(impls) != 1:
+        fail("%s: enum EdgeKind / impl EdgeKind not found exactly once", path)
+    body = tree[enums[0] + 2][1]
+    kinds, i = [], 0
+    while i < len(body):
+        t = body[i]
+        if t == "#":
+            i += 2
+            continue
+        if not isinstance(t, str) or not re.match(r"^[A-Z][A-Za-z0-9]*$", t):
+            fail("%s: enum EdgeKind: unknown syntax near %r", path, flat(body[i:i + 4]))
+        kinds.append(t)
+        i += 1
+        if i < len(body) and is_grp(body[i], "("):
+            i += 1
+        if i < len(body):
+            if body[i] != ",":
+                fail("%s: enum EdgeKind: struct-like or discriminant variant %s", path, t)
+            i += 1
+    if len(set(kinds)) != len(kinds):
+        fail("%s: enum EdgeKind: duplicate variant", path)
+    ms = methods(tree[impls[0] + 2][1], path)["fn"]
+    if "is_static" not in ms or "is_linear" not in ms:
+        fail("%s: EdgeKind::is_static / is_linear missing", path)
+    if flat(ms["is_linear"][1]) != "matches ! ( self , EdgeKind :: Value ( t ) if ! t . copyable ( ) )":
+        fail("%s: EdgeKind::is_linear changed: %s", path, flat(ms["is_linear"][1]))
+    m = re.match(r"^matches ! \( self , (.*) \)$", flat(ms["is_static"][1]))
+    if not m:
+        fail("%s: EdgeKind::is_static is not a single matches!", path)
+    static = []
+    for alt in m.group(1).split(" | "):
+        mm = re.match(r"^EdgeKind :: (\w+) \( _ \)$", alt)
+        if not mm or mm.group(1) not in kinds or mm.group(1) in static:
+            fail("%s: EdgeKind::is_static: alternative not understood: %s", path, alt)
+        static.append(mm.group(1))
+    return kinds, static
 
 
 # ------------------------------------------------------------------------------------------------ Coq text
@@ -904,11 +959,20 @@ def scan(repo):
         fail("other_port: unknown tag %s", sc["static_input_tag"])
     op_tag, ports, has_sig, dfparent = per_op_tables(sc, tags)
     flags, checks, io_tags, exit_tags = flags_tables(sc, tags, dfparent)
-    dom_tag, unconnected_ok_tag = scan_hugr_validate(core, tags)
+    dom_tag, unconnected_ok_tag, unconnected_ok_kinds, linear_extra = scan_hugr_validate(core, tags)
+    edge_kinds, static_kinds = scan_edge_kind(core)
+    for k in unconnected_ok_kinds + linear_extra:
+        if k not in edge_kinds:
+            fail("hugr/validate.rs: unknown EdgeKind::%s", k)
+    for _, kinds, _ in ports:
+        for k in kinds.values():
+            if k is not None and k not in edge_kinds:
+                fail("unknown EdgeKind::%s in a port function", k)
     return {"tags": tags, "lattice": lattice, "optypes": sc["optypes"], "op_tag": op_tag, "ports": ports,
             "has_sig": has_sig, "dfparent": dfparent, "flags": flags, "checks": checks, "io_tags": io_tags,
             "exit_tags": exit_tags, "static_input_tag": sc["static_input_tag"], "dom_tag": dom_tag,
-            "unconnected_ok_tag": unconnected_ok_tag}
+            "unconnected_ok_tag": unconnected_ok_tag, "unconnected_ok_kinds": unconnected_ok_kinds,
+            "linear_extra": linear_extra, "edge_kinds": edge_kinds, "static_kinds": static_kinds}
 
 
 def render(t) -> str:
@@ -958,6 +1022,12 @@ def render(t) -> str:
                "(* hugr/validate.rs validate_port: inputs of operations with this tag need no link *)\n"
                "Definition rs_unconnected_ok_tag : string := %s.\n"
                % (q(t["static_input_tag"]), q(t["dom_tag"]), q(t["unconnected_ok_tag"])))
+    out.append("(* types.rs: enum EdgeKind; the kinds EdgeKind::is_static matches *)\n"
+               "Definition rs_edge_kinds : list string := %s.\nDefinition rs_static_kinds : list string := %s.\n"
+               "(* hugr/validate.rs validate_port: input ports of these kinds need no link; besides non-copyable values,\n"
+               "   output ports of these kinds must have exactly one link *)\n"
+               "Definition rs_unconnected_ok_kinds : list string := %s.\nDefinition rs_linear_out_extra_kinds : list string := %s.\n"
+               % (qlist(t["edge_kinds"]), qlist(t["static_kinds"]), qlist(t["unconnected_ok_kinds"]), qlist(t["linear_extra"])))
     return "\n".join(out)
 
 
